@@ -411,7 +411,8 @@ class C13(core.Check):
         "cases: lattices of 1..4 hexahedra (Loft assemblies) or 2..6 quads (MappedSketch), in one of three frames, "
         "every vertex jittered; 1..3 (thorough: ..4) clamps drawn from Free/Line/Plane/Radial/Curve/ParametricSurface "
         "with and without bounds, 0..2 links (Translation/Rotation/Symmetry) from clamped leaders to unclamped "
-        "followers, all four minimisation methods, 1..3 iterations, tolerance 0.1 or 1e-3; streams: valid, overlap "
+        "followers, all four minimisation methods, 1..3 iterations, tolerance 0.1 or 1e-3; streams: valid, symfree "
+        "(free clamp leading a symmetry link about a plane off the origin), overlap "
         "(followers clamped / shared; correspondence and frame only), degenerate (a bound that collapses a quad), "
         "boundary (0 iterations, no clamps, auto_optimize). Non-trivial = at least one accepted (improved) step or a "
         "rollback / skip; distinct = different case description."
@@ -613,6 +614,41 @@ class C13(core.Check):
         )
         return case
 
+    def _gen_symfree(self, rng: random.Random) -> dict:
+        """a free clamp leading one or two links, the first a symmetry link whose plane does not pass through the
+        origin (what `functions.mirror` used to spoil), at least two iterations"""
+        dims = rng.choice([[2, 1, 1], [1, 2, 1], [2, 2, 1]])
+        a = 0 if dims[0] == 2 else 1
+        case: Dict[str, Any] = {"kind": "mesh", "dims": dims, "frame": rng.choice(list(FRAMES)), "stream": "symfree"}
+        lat = lattice_points(case)
+        jitter = {p: [rng.randint(-10, 10) / 64 for _ in range(3)] for p in lat}
+        leader = rng.choice([p for p in lat if p[a] == 0])
+        f = list(leader)
+        f[a] = 2
+        jl = list(jitter[leader])
+        jl[a] = -jl[a]
+        jitter[tuple(f)] = jl
+        normal = [0.0, 0.0, 0.0]
+        normal[a] = rng.choice([1.0, -2.0])
+        origin = [rng.randint(1, 4) / 4 for _ in range(3)]
+        origin[a] = 1.0
+        links = [{"leader": list(leader), "follower": f, "type": "symmetry", "normal": normal, "origin": origin}]
+        if rng.random() < 0.5:
+            g = rng.choice([p for p in lat if p != leader and p != tuple(f)])
+            links.append({"leader": list(leader), "follower": list(g), "type": "translation"})
+        case.update(
+            {
+                "jitter": [jitter[p] for p in lat],
+                "clamps": [{"at": list(leader), "type": "free"}],
+                "links": links,
+                "method": rng.choice(METHODS),
+                "max_iterations": rng.choice([2, 3]),
+                "tolerance": 0.001,
+                "np_seed": 1,
+            }
+        )
+        return case
+
     def _gen_boundary(self, rng: random.Random, tier: str) -> List[dict]:
         out = []
         c = self._gen_valid(rng, tier, "boundary")
@@ -629,8 +665,9 @@ class C13(core.Check):
         return out
 
     def gen_cases(self, rng: random.Random, tier: str) -> List[dict]:
-        n = 40 if tier == "quick" else 520
+        n = 32 if tier == "quick" else 520
         cases = [self._gen_valid(rng, tier) for _ in range(n)]
+        cases += [self._gen_symfree(rng) for _ in range(3 if tier == "quick" else 30)]
         cases += [self._gen_overlap(rng, tier) for _ in range(4 if tier == "quick" else 40)]
         cases += [self._gen_degenerate(rng) for _ in range(4 if tier == "quick" else 30)]
         for _ in range(1 if tier == "quick" else 6):
@@ -644,7 +681,7 @@ class C13(core.Check):
         try:
             sc = Scenario(case)
         except Exception as e:  # the scenario cannot be set up (e.g. clamp constructor rejects): not a case
-            return {"setup_error": f"{type(e).__name__}: {e}"[:300]}
+            return {"setup_error": f"{type(e).__name__}: {e}"[:300], "setup_exc": type(e).__name__}
         opt = sc.opt
         grid = opt.grid
         rec = Recorder(sc)
@@ -808,6 +845,10 @@ class C13(core.Check):
 
         out: List[dict] = []
         if "setup_error" in impl:
+            # the generator only produces configurations the library documents as valid (clamps at vertex
+            # positions, links between two different vertices): being unable to set one up is a failure
+            if case.get("stream") != "overlap":
+                out.append({"site": f"setup:{impl.get('setup_exc')}", "what": f"valid configuration rejected: {impl['setup_error']}", "observed": impl["setup_error"], "expected": "optimizer accepts the clamps and links"})
             return out
         pts = impl["points"]
         P0 = np.array([pts[i] for i in impl["pts0"]])
